@@ -235,3 +235,8 @@ for _p, _t in (("C09", "prefix"), ("C10", "router-key")):
     PROPS[_p]["rule"] += (" World suites: the same callback log is kept in whole-system runs (real FSM threads against simulated caches, C03 plans incl. "
                           "the aligned two-socket plans) and compared with the enumerated %s table after every synchronisation, failed or not, after reloads, "
                           "expiry purges and stops." % _t)
+
+# two sockets applying at the same instant (aligned pairs, DESIGN §19): the consequences for expiry/stop (C07) and for
+# re-convergence (C08) of the socket whose update or purge overlapped the other one's reload
+PROPS["C07"]["suites"].append(_world("C07", name="world-C07-pair", opts={"focus": "C07", "pair": 1}, runs_quick=400, time_quick=12, runs_thorough=30000, time_thorough=200))
+PROPS["C08"]["suites"].append(_world("C08", name="world-C08-pair", opts={"focus": "C08", "pair": 1}, runs_quick=400, time_quick=12, runs_thorough=30000, time_thorough=200))
